@@ -75,6 +75,23 @@ def run(tier, seed):
     for _ in range(300 if quick else 5000):              # byte noise (valid UTF-8 after lossy decoding)
         bs = bytes(rng.randrange(256) for _ in range(rng.randint(1, 60)))
         texts.append(bs.decode("utf-8", "replace"))
+    # directives whose argument is degenerate: nothing, a blank, a comment, or a macro that expands to nothing / a blank /
+    # a comment / one delimiter / an empty pair of delimiters (round-2 seeded change: `include `H with an empty expansion
+    # indexed byte 0 of an empty string)
+    PRELUDE = ("`define E\n`define B \n`define C // only a comment\n`define Q \"\n`define QQ \"\"\n`define LT <\n`define LG <>\n"
+               "`define ID(x) x\n`define S \"s.svh\"\n`define W  \t \n")
+    ARGS = ["", " ", "`E", "`B", "`C", "`Q", "`QQ", "`LT", "`LG", "`ID()", "`ID( )", "`ID(\"\")", "`ID(<>)", "`S", "`W", "/* c */", "// c", "\"\"", "<>", "\"", "<", "`", "`NOPE", "`ID", "`ID(", "\\"]
+    DIRS = ["`include", "`define", "`undef", "`ifdef", "`ifndef", "`elsif", "`timescale", "`default_nettype", "`line", "`pragma", "`begin_keywords",
+            "`unconnected_drive", "`E", "`ID"]
+    dtexts = []
+    for d in DIRS:
+        for a in ARGS:
+            for tail in ("\n", "\nmodule m; endmodule\n`endif\n", " x\n"):
+                dtexts.append(PRELUDE + "pre " * (len(dtexts) % 2) + ("\n" if len(dtexts) % 2 else "") + d + " " + a + tail)
+                dtexts.append(PRELUDE + d + a + tail)
+    if quick:
+        dtexts = rng.sample(dtexts, 700)
+    texts += dtexts
     hcases = []
     for i, t in enumerate(texts):
         k = i % 6
@@ -85,7 +102,8 @@ def run(tier, seed):
         elif k == 2:
             calls = [{"fn": "parse_lib_str", "path": "t.sv", "text": t, "fmt": True}]
         elif k == 3:
-            calls = [{"fn": "preprocess_str", "path": "t.sv", "text": t, "strip_comments": True}, {"fn": "preprocess", "path": "t.sv", "strip_comments": True, "ignore_include": True}]
+            calls = [{"fn": "preprocess_str", "path": "t.sv", "text": t, "strip_comments": True}, {"fn": "preprocess", "path": "t.sv", "strip_comments": True, "ignore_include": True},
+                     {"fn": "preprocess", "path": "t.sv", "incdirs": ["inc"]}]
         elif k == 4:
             calls = [{"fn": "parse_sv", "path": "t.sv", "ignore_include": True, "fmt": True}, {"fn": "preprocess", "path": "t.sv"}]
         else:
